@@ -13,7 +13,10 @@
     utils/cobrautil     DescribeFlags, formats OneLine and Plain
     http_proxy.go       upstreamProxyURL + the "using upstream proxy" line (`url.Redacted()`)
     pflag / utils/cobrautil/bind.go   "invalid argument %q for %q flag: " for a rejected flag value
-    tls.go              loadRootCAs: `append certificate %q` (wrapped as `load CAs: …`)
+    tls.go              redactDataURI; loadRootCAs: `append certificate %q` of the redacted entry
+                        (wrapped as `load CAs: …`)
+    http_proxy.go, http_server.go   configureHTTPS/configureHTTP2: the debug line
+                        "loading TLS certificate" cert=… key=… (both through redactDataURI)
 
   A flag value is modelled from the *raw string* the user supplies (command line, FORWARDER_*
   variable, config file entry) to the text that `DescribeFlags` prints for it: `describeValue`
@@ -475,11 +478,52 @@ def upstreamProxyURL (u : ProxyURL) (cred : Option Userinfo) : ProxyURL :=
 def upstreamLogURL (u : ProxyURL) (cred : Option Userinfo) : Bytes :=
   redactURL (some (upstreamProxyURL u cred))
 
+/-! ### diagnostics outside the configuration dump that render a file-valued flag -/
+
+/-- tls.go `redactDataURI`: the payload of an inline `data:` value is replaced by the placeholder,
+    any other value (a path) is printed as it is -/
+def redactDataURI (s : Bytes) : Bytes :=
+  if dataPrefix.isPrefixOf s then dataPrefix ++ placeholder else s
+
+/-- the `cert` and `key` attributes of the debug record "loading TLS certificate" -/
+structure TLSLoadAttrs where
+  cert : Bytes
+  key : Bytes
+  deriving DecidableEq, Repr
+
+/-- http_proxy.go `configureHTTPS`, http_server.go `configureHTTPS`/`configureHTTP2` (after 6ee5ae9):
+    with neither `--tls-cert-file` nor `--tls-key-file` the info line "no TLS certificate provided,
+    using self-signed certificate" is written instead (`none`); otherwise
+    `Debug("loading TLS certificate", "cert", redactDataURI(CertFile), "key", redactDataURI(KeyFile))` -/
+def tlsLoadAttrs (certFile keyFile : Bytes) : Option TLSLoadAttrs :=
+  if certFile = [] ∧ keyFile = [] then none
+  else some ⟨redactDataURI certFile, redactDataURI keyFile⟩
+
+/-- a file-valued flag that may be absent: its raw value (`""` when not given) and what may be shown of it -/
+def optFileRaw (f : Option FilePub) (payload : Bytes) : Bytes :=
+  match f with
+  | some f => f.raw payload
+  | none => []
+
+def optFileShown : Option FilePub → Bytes
+  | some f => f.shown
+  | none => []
+
+/-- the record as a configuration produces it (the proxy's `--tls-cert-file` / `--tls-key-file`) -/
+def tlsLoadLine (c : Config) : Option TLSLoadAttrs :=
+  tlsLoadAttrs (optFileRaw c.pub.tlsCert c.sec.tlsCert) (optFileRaw c.pub.tlsKey c.sec.tlsKey)
+
+/-- the same record computed from the public part alone -/
+def tlsLoadShown (p : ConfigPub) : Option TLSLoadAttrs :=
+  if optFileShown p.tlsCert = [] ∧ optFileShown p.tlsKey = [] then none
+  else some ⟨optFileShown p.tlsCert, optFileShown p.tlsKey⟩
+
 /-! ### error texts that render a flag value
 
-  Both are defects of the unchanged tree (F43, F44): the value is printed with `%q`, not through
-  the flag's redactor.  The model says what is printed; the theorems say for which configurations
-  that is harmless and exhibit one for which it is not. -/
+  The rejected-value text is a defect of the unchanged tree (F43): the value is printed with `%q`,
+  not through the flag's redactor.  The model says what is printed; the theorems say for which
+  configurations that is harmless and exhibit one for which it is not.  The CA certificate error
+  had the same defect (F44) until d35211c; it now prints the entry through `redactDataURI`. -/
 
 /-- `%q` (`strconv.Quote`) on printable ASCII: only `"` and `\` are escaped -/
 def quoteAscii (s : Bytes) : Bytes :=
@@ -518,11 +562,12 @@ def firstRejected (k : Kind) : List Bytes → Option Bytes
 def flagErrors (ss : List Setting) : List Bytes :=
   ss.filterMap fun s => (firstRejected s.kind s.raws).map fun r => invalidArgText .flag s.name s.slice [r]
 
-/-- tls.go `loadRootCAs`: `fmt.Errorf("append certificate %q", name)` for a `--cacert-file` value
-    that holds no PEM certificate, wrapped by `ConfigureTLSConfig` as `load CAs: %w`; this is the
-    `error` of the "fatal error exiting" record and the content of the termination log -/
+/-- tls.go `loadRootCAs` (after d35211c): `fmt.Errorf("append certificate %q", redactDataURI(name))`
+    for a `--cacert-file` value that holds no PEM certificate, wrapped by `ConfigureTLSConfig` as
+    `load CAs: %w`; this is the `error` of the "fatal error exiting" record and the content of the
+    termination log -/
 def caCertErrorText (raw : Bytes) : Bytes :=
-  ascii "load CAs: append certificate " ++ quoteAscii raw
+  ascii "load CAs: append certificate " ++ quoteAscii (redactDataURI raw)
 
 /-- decidable infix test used by the driver (`bytes.Contains`) -/
 def isInfix (s : Bytes) : Bytes → Bool
